@@ -282,7 +282,6 @@ def main(argv=None):
         if verdict == "fail":
             print(f"replay {path}: FAIL [{sig}] {msg}")
             print(f"VIOLATION property={prop_id} replay={path}")
-            write_evidence(prop_id, args, seed, t0, {}, subs, replays_run, known_entries, known_hits, violations=1)
             return 1
         if verdict == "known":
             known_hits[sig] = known_hits.get(sig, 0) + 1
